@@ -17,6 +17,7 @@ import re
 
 from ..fmt_eval import ANode, Eval, HandlerTable, Str
 from ..lnodes_model import LNODES, load_classes, precedence_table
+from ..flow import Slicer
 from ..model import AnalysisError, call_name, calls_in, const_value, dotted, walk_no_nested
 from ..registry import rule
 
@@ -427,3 +428,86 @@ def type_roles(repo, res):
     res.ob(key)
     if "analyze_ufl_objects(ufl_objects, options['scalar_type'])" not in ast.unparse(comp.node):
         res.fail(key, "analysis is not run with options['scalar_type']", comp.module.line(comp.node))
+
+
+@rule(
+    "KERNEL-PROLOGUE",
+    ["C07", "C18"],
+    "whatever the numba generators and all kernel templates (C and numba) put around the generated body is free of effects on "
+    "the kernel arguments: the numba prologue (an f-string, read as Python with its placeholders filled) consists exactly of "
+    "`name = numba.carray(_name, (size))` views; the text between a kernel's signature and its body slot in every template "
+    "contains no statement (C: only `{`; numba: only the slot)",
+    min_instances=6,
+)
+def kernel_prologue(repo, res):
+    import textwrap
+
+    for kind, slot in (("integral", "tabulate_tensor"), ("expression", "tabulate_expression")):
+        g = repo.mod(f"ffcx.codegeneration.numba.{kind}").func("generator")
+        res.functions.add(g.key)
+        key = f"{g.key}:prologue"
+        res.ob(key)
+        # the value stored into the body slot: <prologue> + body
+        store = None
+        for n in ast.walk(g.node):
+            if isinstance(n, ast.Assign) and isinstance(n.targets[0], ast.Subscript) and isinstance(n.targets[0].slice, ast.Constant) \
+                    and n.targets[0].slice.value == slot:
+                store = n
+        if store is None:
+            raise AnalysisError(f"numba {kind} generator: store into the `{slot}` slot not found")
+        sl = Slicer(g.node)
+        parts = []
+
+        def flat(e):
+            if isinstance(e, ast.BinOp) and isinstance(e.op, ast.Add):
+                flat(e.left)
+                flat(e.right)
+            else:
+                parts.append(e)
+
+        flat(store.value)
+        texts = []
+        for p_ in parts:
+            cands = [p_] if not isinstance(p_, ast.Name) else sl.defs.get(p_.id, [])
+            for c_ in cands:
+                c_ = c_.value if isinstance(c_, ast.Assign) else c_
+                if isinstance(c_, ast.JoinedStr):
+                    txt = "".join(v.value if isinstance(v, ast.Constant) else "0" for v in c_.values)
+                    texts.append((p_, txt))
+                elif isinstance(c_, ast.Constant) and isinstance(c_.value, str):
+                    texts.append((p_, c_.value))
+        if not texts:
+            raise AnalysisError(f"numba {kind} generator: no literal prologue text found in `{ast.unparse(store.value)}`")
+        for p_, txt in texts:
+            try:
+                tree = ast.parse(textwrap.dedent(txt))
+            except SyntaxError as e:
+                res.fail(key, f"numba {kind} prologue is not valid Python: {e}", g.module.line(store), props=("C18",))
+                continue
+            for st in tree.body:
+                ok = (isinstance(st, ast.Assign) and len(st.targets) == 1 and isinstance(st.targets[0], ast.Name) and isinstance(st.value, ast.Call)
+                      and (call_name(st.value) or "") == "numba.carray" and len(st.value.args) == 2 and isinstance(st.value.args[0], ast.Name)
+                      and st.value.args[0].id == "_" + st.targets[0].id)
+                if not ok:
+                    res.fail(key, f"numba {kind} kernels execute `{ast.unparse(st)}` before the generated body: only views of the arguments may be created there "
+                             "(A must be accumulated into, not reset; inputs must not be written)", g.module.line(store))
+    for be in ("C", "numba"):
+        for kind, slot in (("integral", "tabulate_tensor"), ("expression", "tabulate_expression")):
+            tm = repo.mod(f"ffcx.codegeneration.{be}.{kind}_template")
+            t = const_value(tm.assign("factory"))
+            key = f"{be}.{kind}_template:nothing-around-the-body"
+            res.ob(key)
+            i = t.find("{" + slot + "}")
+            if i < 0:
+                raise AnalysisError(f"{be} {kind} template has no {{{slot}}} slot")
+            if be == "C":
+                j = t.rfind(")", 0, i)
+                between = t[j + 1:i].strip()
+                after = t[i + len(slot) + 2:].lstrip()
+                if between.replace("{{", "{") != "{" or not after.startswith("}}"):
+                    res.fail(key, f"C {kind} template has text between the kernel signature and its body slot or after it: `{between[:60]}` ... `{after[:20]}`", tm.rel)
+            else:
+                j = t.rfind("):", 0, i)
+                between = t[j + 2:i].strip()
+                if between:
+                    res.fail(key, f"numba {kind} template executes `{between[:60]}` before the generated body", tm.rel)
